@@ -575,6 +575,9 @@ func configs(tier string) []config {
 		config{Kind: "idle", IntervalS: 10, Ticks: 5000, Streams: []streamCfg{{SSRC: 0xABCD, Rate: 90000, StartSeq: 1, StartTS: 12345}}},
 		config{Kind: "idle", IntervalS: 100, Ticks: 5500, Streams: []streamCfg{{SSRC: 0xABCD, Rate: 8000, StartSeq: 1, StartTS: 1<<32 - 1}}},
 		config{Kind: "idle", UseLatest: true, IntervalS: 10, Ticks: 9100, Streams: []streamCfg{{SSRC: 0xABCD, Rate: 48000, StartSeq: 1, StartTS: 1 << 31}}},
+		// clock rates above 99 kHz: elapsed x rate passes 2^31 ticks within hours (192 kHz: after 3 h 6 min) or minutes (1 MHz: after 36 min)
+		config{Kind: "idle", IntervalS: 600, Ticks: 40, Streams: []streamCfg{{SSRC: 0xABCD, Rate: 192000, StartSeq: 65535, StartTS: 1<<32 - 5}}},
+		config{Kind: "idle", UseLatest: true, IntervalS: 60, Ticks: 150, Streams: []streamCfg{{SSRC: 0xABCD, Rate: 1_000_000, StartSeq: 1, StartTS: 77}}},
 		// octet count beyond 2^32 (2 941 760 packets of 1460 bytes), sequence number wraps 44 times on the way
 		config{Kind: "octets", IntervalS: 3600, Writes: 2_941_760, Ticks: 2, Streams: []streamCfg{{SSRC: 0xABCD, Rate: 90000, StartSeq: 65000, StartTS: 1<<32 - 100000}}},
 	)
